@@ -315,6 +315,14 @@ def oracle_filter(ctx, cfg, bank, i, W, eps):
         tags.update(max_centered=cfg["max_centered"], erb=cfg["erb"], order=cfg["order"])
     left, right = bank.supports[i]
     lo, hi = bank.supports_hz[i]
+    # a caller may do what it likes with the arrays it is handed (the test-suite squares them in place,
+    # circshift_fourier(copy=False) rotates them): a later request on the same bank must not see that
+    for scratch in (bank.get_impulse_response(i, W), bank.get_frequency_response(i, W),
+                    bank.get_truncated_response(i, W)[1]):
+        try:
+            scratch[...] = 12345.0
+        except (ValueError, TypeError):  # read-only results are fine too
+            pass
     x = bank.get_impulse_response(i, W)
     X = bank.get_frequency_response(i, W)
     ctx.case(case, kind="oracle:" + kind)
